@@ -15,6 +15,14 @@ from .envlib import B_, same_tensor
 MTG = "rl4co/envs/routing/mtvrp/generator.py"
 
 
+def shape_is(t, shape):
+    """rank and every dimension equal (symbolic dimensions compared as formulas, not structurally)"""
+    shape = tuple(shape)
+    if len(tuple(t.shape)) != len(shape):
+        return False
+    return AND(*[zint(a) == zint(b) for a, b in zip(tuple(t.shape), shape)])
+
+
 @unit("mtvrp.generator.time_windows", file=MTG, func="MTVRPGenerator.generate_time_windows", props=("C18",))
 def _(u):
     B, N = u.dims("B N")
@@ -57,7 +65,7 @@ def _(u):
 CVG = "rl4co/envs/routing/cvrp/generator.py"
 
 
-def _sampler(u, name, lo, hi, dtype="f", replay=None):
+def _sampler(u, name, lo, hi, dtype="f", replay=None, preset=None):
     """A sampler stub (assumed contract A10): sample(shape) returns an arbitrary tensor with entries in [lo, hi].
     replay=<another stub>: return (value copies of) that stub's draws again, for two runs on the same randomness."""
     cnt = [0]
@@ -68,7 +76,14 @@ def _sampler(u, name, lo, hi, dtype="f", replay=None):
         if replay is not None:
             t0 = replay.drawn[cnt[0] - 1]
             return SymTensor(t0.shape, t0.dtype, t0.snap(), name=t0.name)
-        t = u.tensor(f"{name}{cnt[0]}", tuple(shape), dtype)
+        if preset is not None:
+            # draws created by the contract beforehand (so that it can state a pre-condition on them)
+            t = preset[cnt[0] - 1]
+            assert len(t.shape) == len(tuple(shape))
+            for a_, b_ in zip(t.shape, tuple(shape)):
+                cur().wf("preset-draw-shape", zint(a_) == zint(b_))
+        else:
+            t = u.tensor(f"{name}{cnt[0]}", tuple(shape), dtype)
         drawn.append(SymTensor(t.shape, t.dtype, t.snap(), name=t.name))
         ts = t.snap()
         ops.assume_forall(tuple(shape), lambda I: z3.And(ts(I) >= lo, ts(I) <= hi))
@@ -176,12 +191,15 @@ def _cvrptw_generate(u, scale, max_time=None):
     d = ops.NORM2(dep.at(b, 0) - loc.at(b, i, 0), dep.at(b, 1) - loc.at(b, i, 1))
     feas = 2 * d <= M                                                # a round trip fits at all
     u.prove("tw.customer-ordered", lo < hi, assume=True)
+    u.prove("lemma.distance-nonnegative", d >= 0, assume=True)
     # (non-linear step made explicit: a draw in [0, 1) times the non-negative slack max_time - 2 d stays inside [0, slack])
     rands = [fn for name, (fn, shp, dt) in u.ctx.inputs.items() if "rand" in name and len(shp) == 2]
     for n_, r in enumerate(rands):
         x = r(b, i + 1)
         u.prove(f"lemma.draw{n_ + 1}-in-range", AND(x >= 0, x < 1), assume=True)
         u.prove(f"lemma.slack-times-draw{n_ + 1}-in-range", IMPL(feas, AND((M - 2 * d) * x >= 0, (M - 2 * d) * x <= M - 2 * d)), assume=True, algebra_only=True)
+        y = d + (M - 2 * d) * x                                      # the raw window end-point before truncation: inside [d, max_time - d]
+        u.prove(f"lemma.truncated-endpoint{n_ + 1}-in-range", IMPL(feas, AND(z3.ToInt(y) >= z3.ToInt(d), z3.ToReal(z3.ToInt(y)) <= M - d, y >= 0)), assume=True, algebra_only=True)
     u.prove("tw.integer-valued", AND(z3.ToReal(z3.ToInt(lo)) == lo, z3.ToReal(z3.ToInt(hi)) == hi), assume=True)
     u.prove("tw.opens-not-before-depot-distance-floor", IMPL(feas, lo >= z3.ToReal(z3.ToInt(d))), assume=True)
     u.prove("tw.leaves-time-to-return", IMPL(feas, hi + d <= M))
@@ -229,3 +247,410 @@ def _(u):
     u.prove("scaled.demand-untouched", AND(td2["demand"].at(b, i) == td1["demand"].at(b, i), td2["capacity"].at(b, 0) == td1["capacity"].at(b, 0)))
     u.prove("scaled.windows-are-floats", td2["time_windows"].dtype == "f")
     u.canary("scaled.windows-unchanged", td2["time_windows"].at(b, j, c) == z3.ToReal(td1["time_windows"].at(b, j, c)))
+
+
+# ---------------------------------------------------------------------------------------------
+# the plain routing generators: documented shapes and ranges for EVERY draw of the samplers (A10)
+# ---------------------------------------------------------------------------------------------
+def _locs_in_range(u, p, td, B, N, lmin, lmax, depot=True):
+    b, i, c = u.idx((B,), "b"), u.idx((N,), "i"), u.idx((2,), "c")
+    want = AND(shape_is(td["locs"], (B, N, 2)), tuple(td.batch_size) == (B,))
+    rng = AND(td["locs"].at(b, i, c) >= lmin, td["locs"].at(b, i, c) <= lmax)
+    if depot:
+        want = AND(want, shape_is(td["depot"], (B, 2)))
+        rng = AND(rng, td["depot"].at(b, c) >= lmin, td["depot"].at(b, c) <= lmax)
+    u.prove(p + "shapes", want)
+    u.prove(p + "locs-in-range", rng)
+    u.canary(p + "locs-strictly-inside", td["locs"].at(b, i, c) > lmin)
+    return b, i, c
+
+
+def _loc_variants(u, lmin, lmax):
+    for variant in ("depot-sampler", "depot-from-locs"):
+        yield variant + ".", dict(loc_sampler=_sampler(u, f"{variant}.loc", lmin, lmax),
+                                  depot_sampler=_sampler(u, f"{variant}.depot", lmin, lmax) if variant == "depot-sampler" else None)
+
+
+TSG = "rl4co/envs/routing/tsp/generator.py"
+
+
+@unit("tsp.generator.generate", file=TSG, func="TSPGenerator._generate", props=("C18",))
+def _(u):
+    B, N = u.dims("B N")
+    lmin, lmax = u.scalar("min_loc", "f"), u.scalar("max_loc", "f")
+    u.requires(lmin <= lmax)
+    gen = u.obj(TSG, "TSPGenerator", num_loc=N, loc_sampler=_sampler(u, "loc", lmin, lmax))
+    td = u.run(TSG, "TSPGenerator._generate", [B], selfobj=gen, record=False)
+    _locs_in_range(u, "", td, B, N, lmin, lmax, depot=False)
+    u.prove("keys", sorted(td.keys()) == ["locs"])
+
+
+PDG = "rl4co/envs/routing/pdp/generator.py"
+
+
+@unit("pdp.generator.generate", file=PDG, func="PDPGenerator._generate", props=("C18",))
+def _(u):
+    B, N = u.dims("B N")
+    lmin, lmax = u.scalar("min_loc", "f"), u.scalar("max_loc", "f")
+    u.requires(lmin <= lmax)
+    for p, samplers in _loc_variants(u, lmin, lmax):
+        gen = u.obj(PDG, "PDPGenerator", num_loc=N, **samplers)
+        td = u.run(PDG, "PDPGenerator._generate", [B], selfobj=gen, record=False)
+        _locs_in_range(u, p, td, B, N, lmin, lmax)
+        u.prove(p + "keys", sorted(td.keys()) == ["depot", "locs"])
+
+
+@unit("pdp.generator.init.even", file=PDG, func="PDPGenerator.__init__", props=("C18",))
+def _(u):
+    # pickups and deliveries are paired (node i picks up for node i + num_loc / 2): an odd size is rounded up to the next even one
+    s = u.ns(sample=lambda shape: None)
+    for n, want in ((20, 20), (21, 22), (1, 2), (50, 50)):
+        g = u.obj(PDG, "PDPGenerator")
+        u.run(PDG, "PDPGenerator.__init__", n, selfobj=g, record=False, loc_sampler=s, depot_sampler=s)
+        u.prove(f"init.num_loc{n}.even", g._attrs["num_loc"] == want, note=f"got {g._attrs['num_loc']!r}")
+
+
+OPG = "rl4co/envs/routing/op/generator.py"
+
+
+def _op_generate(u, prize_type, variants=("depot-sampler", "depot-from-locs")):
+    B, N = u.dims("B N")
+    lmin, lmax = u.scalar("min_loc", "f"), u.scalar("max_loc", "f")
+    L = u.scalar("max_length", "f")
+    u.requires(AND(lmin <= lmax, L > 0))
+    for variant in variants:
+        p = variant + "."
+        if variant == "depot-sampler":
+            dep_t, loc_t = u.tensor(p + "depot", (B, 2), "f"), u.tensor(p + "loc", (B, N, 2), "f")
+            dep, loc = (lambda b, c: dep_t.at(b, c)), (lambda b, i, c: loc_t.at(b, i, c))
+            samplers = dict(loc_sampler=_sampler(u, p + "loc", lmin, lmax, preset=[loc_t]), depot_sampler=_sampler(u, p + "depot", lmin, lmax, preset=[dep_t]))
+        else:
+            all_t = u.tensor(p + "loc", (B, N + 1, 2), "f")
+            dep, loc = (lambda b, c: all_t.at(b, 0, c)), (lambda b, i, c: all_t.at(b, zint(i) + 1, c))
+            samplers = dict(loc_sampler=_sampler(u, p + "loc", lmin, lmax, preset=[all_t]), depot_sampler=None)
+        if prize_type == "dist":
+            # some customer is off the depot (the real code divides by the largest depot distance; a measure-zero event, A10)
+            u.requires(u.forall((B,), lambda b: u.exists((N,), lambda i: OR(loc(b, i, 0) != dep(b, 0), loc(b, i, 1) != dep(b, 1)))))
+        gen = u.obj(OPG, "OPGenerator", num_loc=N, prize_type=prize_type, max_length=L, device="cpu", **samplers)
+        td = u.run(OPG, "OPGenerator._generate", [B], selfobj=gen, record=False)
+        b, i, c = _locs_in_range(u, p, td, B, N, lmin, lmax)
+        u.prove(p + "locs-are-the-draws", AND(td["locs"].at(b, i, c) == loc(b, i, c), td["depot"].at(b, c) == dep(b, c)))
+        pz = td["prize"].at(b, i)
+        u.prove(p + "prize.shape", AND(shape_is(td["prize"], (B, N)), td["prize"].dtype == "f"))
+        if prize_type == "const":
+            u.prove(p + "prize.const-one", pz == 1)
+        else:
+            # a whole number of hundredths between 1/100 and 100/100 (for "dist": whenever some customer is off the depot)
+            k = z3.ToInt(pz * 100)
+            u.prove(p + "prize.hundredths-in-range", AND(pz * 100 == z3.ToReal(k), k >= 1, k <= 100))
+            if prize_type == "unif":
+                u.canary(p + "prize.below-one", pz < 1)
+        u.prove(p + "max_length", AND(shape_is(td["max_length"], (B,)), td["max_length"].at(b) == L))
+        u.prove(p + "keys", sorted(td.keys()) == ["depot", "locs", "max_length", "prize"])
+
+
+for _pt in ("const", "unif"):
+    unit(f"op.generator.generate.{_pt}", file=OPG, func="OPGenerator._generate", props=("C18",))(lambda u, _pt=_pt: _op_generate(u, _pt))
+for _v in ("depot-sampler", "depot-from-locs"):
+    unit(f"op.generator.generate.dist.{_v}", file=OPG, func="OPGenerator._generate", props=("C18",))(lambda u, _v=_v: _op_generate(u, "dist", (_v,)))
+
+
+PCG = "rl4co/envs/routing/pctsp/generator.py"
+
+
+@unit("pctsp.generator.generate", file=PCG, func="PCTSPGenerator._generate", props=("C18",))
+def _(u):
+    B, N = u.dims("B N")
+    lmin, lmax = u.scalar("min_loc", "f"), u.scalar("max_loc", "f")
+    pmax, dmax = u.scalar("penalty_max", "f"), u.scalar("prize_max", "f")
+    u.requires(AND(lmin <= lmax, pmax >= 0, dmax >= 0))
+    for p, samplers in _loc_variants(u, lmin, lmax):
+        gen = u.obj(PCG, "PCTSPGenerator", num_loc=N, penalty_sampler=_sampler(u, p + "pen", zreal(0), pmax),
+                    deterministic_prize_sampler=_sampler(u, p + "det", zreal(0), dmax),
+                    stochastic_prize_sampler=_sampler(u, p + "sto", zreal(0), zreal(2)), **samplers)
+        td = u.run(PCG, "PCTSPGenerator._generate", [B], selfobj=gen, record=False)
+        b, i, c = _locs_in_range(u, p, td, B, N, lmin, lmax)
+        pen, det, sto = (td[k].at(b, i) for k in ("penalty", "deterministic_prize", "stochastic_prize"))
+        u.prove(p + "shapes.node-features", AND(*[shape_is(td[k], (B, N)) for k in ("penalty", "deterministic_prize", "stochastic_prize")]))
+        u.prove(p + "penalty-in-range", AND(pen >= 0, pen <= pmax))
+        u.prove(p + "expected-prize-in-range", AND(det >= 0, det <= dmax))
+        # the revealed prize lies in [0, 2 * expected prize] (a draw in [0, 2] times the expected prize of THAT node)
+        u.prove(p + "stochastic-prize-within-twice-expected", AND(sto >= 0, sto <= 2 * det))
+        u.prove(p + "keys", sorted(td.keys()) == ["depot", "deterministic_prize", "locs", "penalty", "stochastic_prize"])
+        u.canary(p + "stochastic-prize-at-most-expected", sto <= det)
+
+
+MSG = "rl4co/envs/routing/mtsp/generator.py"
+
+
+@unit("mtsp.generator.generate", file=MSG, func="MTSPGenerator._generate", props=("C18",))
+def _(u):
+    B, N = u.dims("B N")
+    lmin, lmax = u.scalar("min_loc", "f"), u.scalar("max_loc", "f")
+    amin, amax = u.scalar("min_num_agents", "i"), u.scalar("max_num_agents", "i")
+    u.requires(AND(lmin <= lmax, amin >= 1, amin <= amax))
+    gen = u.obj(MSG, "MTSPGenerator", num_loc=N, min_num_agents=amin, max_num_agents=amax, loc_sampler=_sampler(u, "loc", lmin, lmax))
+    td = u.run(MSG, "MTSPGenerator._generate", [B], selfobj=gen, record=False)
+    b, i, c = _locs_in_range(u, "", td, B, N, lmin, lmax, depot=False)
+    u.prove("num_agents", AND(shape_is(td["num_agents"], (B,)), td["num_agents"].dtype == "i",
+                              td["num_agents"].at(b) >= amin, td["num_agents"].at(b) <= amax))
+    u.prove("keys", sorted(td.keys()) == ["locs", "num_agents"])
+    u.canary("num_agents-below-max", td["num_agents"].at(b) < amax)
+
+
+SVG = "rl4co/envs/routing/svrp/generator.py"
+
+
+@unit("svrp.generator.generate", file=SVG, func="SVRPGenerator._generate", props=("C18",))
+def _(u):
+    B, N = u.dims("B N")
+    lmin, lmax = u.scalar("min_loc", "f"), u.scalar("max_loc", "f")
+    smin, smax = u.scalar("min_skill", "f"), u.scalar("max_skill", "f")
+    u.requires(AND(lmin <= lmax, smin >= 0, smin <= smax))
+    K = 3                                                            # technicians (len(tech_costs); python list: concrete)
+    for p, samplers in _loc_variants(u, lmin, lmax):
+        gen = u.obj(SVG, "SVRPGenerator", num_loc=N, num_tech=K, min_skill=smin, max_skill=smax, **samplers)
+        td = u.run(SVG, "SVRPGenerator._generate", [B], selfobj=gen, record=False)
+        b, i, c = _locs_in_range(u, p, td, B, N, lmin, lmax)
+        k = u.idx((K,), "k")
+        k2 = u.idx((K - 1,), "k2")
+        techs, skills = td["techs"], td["skills"]
+        u.prove(p + "shapes.skills", AND(shape_is(techs, (B, K, 1)), shape_is(skills, (B, N, 1))))
+        u.prove(p + "techs.in-range", AND(techs.at(b, k, 0) >= smin, techs.at(b, k, 0) <= smax))
+        u.prove(p + "techs.sorted-ascending", techs.at(b, k2, 0) <= techs.at(b, k2 + 1, 0))
+        # solvable: the most skilled technician (the last one) can serve every customer
+        u.prove(p + "skills.servable-by-best-technician", AND(skills.at(b, i, 0) >= 0, skills.at(b, i, 0) <= techs.at(b, K - 1, 0)))
+        u.prove(p + "keys", sorted(td.keys()) == ["depot", "locs", "skills", "techs"])
+        u.canary(p + "skills.servable-by-least-skilled", skills.at(b, i, 0) <= techs.at(b, 0, 0))
+
+
+MDG = "rl4co/envs/routing/mdcpdp/generator.py"
+
+
+def _mdcpdp_generate(u, depot_mode):
+    B, N, D = u.dims("B N D")
+    lmin, lmax = u.scalar("min_loc", "f"), u.scalar("max_loc", "f")
+    cmin, cmax = u.scalar("min_capacity", "i"), u.scalar("max_capacity", "i")
+    wmin, wmax = u.scalar("min_lateness_weight", "f"), u.scalar("max_lateness_weight", "f")
+    u.requires(AND(lmin <= lmax, cmin >= 1, cmin <= cmax, wmin <= wmax))
+    gen = u.obj(MDG, "MDCPDPGenerator", num_loc=N, num_depot=D, depot_mode=depot_mode, min_capacity=cmin, max_capacity=cmax,
+                loc_sampler=_sampler(u, "loc", lmin, lmax), depot_sampler=_sampler(u, "depot", lmin, lmax),
+                lateness_weight_sampler=_sampler(u, "lw", wmin, wmax))
+    td = u.run(MDG, "MDCPDPGenerator._generate", [B], selfobj=gen, record=False)
+    b, i, c = _locs_in_range(u, "", td, B, N, lmin, lmax, depot=False)
+    d = u.idx((D,), "d")
+    u.prove("shapes", AND(shape_is(td["depot"], (B, D, 2)), shape_is(td["capacity"], (B, 1)), shape_is(td["lateness_weight"], (B, 1))))
+    u.prove("depots-in-range", AND(td["depot"].at(b, d, c) >= lmin, td["depot"].at(b, d, c) <= lmax))
+    if depot_mode == "single":
+        u.prove("single-depot-repeated", td["depot"].at(b, d, c) == td["depot"].at(b, 0, c))
+    u.prove("capacity-in-range", AND(td["capacity"].dtype == "i", td["capacity"].at(b, 0) >= cmin, td["capacity"].at(b, 0) <= cmax))
+    u.prove("lateness-weight-in-range", AND(td["lateness_weight"].at(b, 0) >= wmin, td["lateness_weight"].at(b, 0) <= wmax))
+    u.prove("keys", sorted(td.keys()) == ["capacity", "depot", "lateness_weight", "locs"])
+    u.canary("capacity-below-max", td["capacity"].at(b, 0) < cmax)
+
+
+for _m in ("single", "multiple"):
+    unit(f"mdcpdp.generator.generate.{_m}", file=MDG, func="MDCPDPGenerator._generate", props=("C18",))(lambda u, _m=_m: _mdcpdp_generate(u, _m))
+
+
+SMG = "rl4co/envs/scheduling/smtwtp/generator.py"
+
+
+@unit("smtwtp.generator.generate", file=SMG, func="SMTWTPGenerator._generate", props=("C18",))
+def _(u):
+    B, N = u.dims("B N")
+    names = ("time_span", "job_weight", "process_time")
+    lo = {n: u.scalar("min_" + n, "f") for n in names}
+    hi = {n: u.scalar("max_" + n, "f") for n in names}
+    u.requires(AND(*[AND(lo[n] >= 0, lo[n] <= hi[n]) for n in names]))
+    gen = u.obj(SMG, "SMTWTPGenerator", num_job=N, **{"min_" + n: lo[n] for n in names}, **{"max_" + n: hi[n] for n in names})
+    for bs in ("list", "int"):
+        td = u.run(SMG, "SMTWTPGenerator._generate", [B] if bs == "list" else B, selfobj=gen, record=False)
+        b, j = u.idx((B,), "b"), u.idx((N,), "j")
+        for key, n in (("job_due_time", "time_span"), ("job_weight", "job_weight"), ("job_process_time", "process_time")):
+            t = td[key]
+            u.prove(f"{bs}.{key}", AND(shape_is(t, (B, N + 1)), t.at(b, 0) == 0, t.at(b, j + 1) >= lo[n], t.at(b, j + 1) <= hi[n]))
+        u.prove(f"{bs}.keys", AND(sorted(td.keys()) == ["job_due_time", "job_process_time", "job_weight"], tuple(td.batch_size) == (B,)))
+    u.canary("dummy-job-has-weight", td["job_weight"].at(b, 0) > 0)
+
+
+FLG = "rl4co/envs/graph/flp/generator.py"
+
+
+@unit("flp.generator.generate", file=FLG, func="FLPGenerator._generate", props=("C18",))
+def _(u):
+    B, N = u.dims("B N")
+    lmin, lmax = u.scalar("min_loc", "f"), u.scalar("max_loc", "f")
+    K = u.scalar("to_choose", "i")
+    u.requires(AND(lmin <= lmax, K >= 1))
+    gen = u.obj(FLG, "FLPGenerator", num_loc=N, min_loc=lmin, max_loc=lmax, to_choose=K, loc_sampler=_sampler(u, "loc", lmin, lmax))
+    td = u.run(FLG, "FLPGenerator._generate", [B], selfobj=gen, record=False)
+    b, i, c = _locs_in_range(u, "", td, B, N, lmin, lmax, depot=False)
+    i2 = u.idx((N,), "i2")
+    locs = td["locs"]
+    u.prove("shapes", AND(shape_is(td["orig_distances"], (B, N, N)), shape_is(td["distances"], (B, N)), shape_is(td["chosen"], (B, N)),
+                          shape_is(td["to_choose"], (B,)), td["chosen"].dtype == "b", td["to_choose"].dtype == "i"))
+    u.prove("orig_distances-are-the-pairwise-distances", td["orig_distances"].at(b, i, i2) == ops.NORM2(locs.at(b, i, 0) - locs.at(b, i2, 0), locs.at(b, i, 1) - locs.at(b, i2, 1)))
+    u.prove("nothing-chosen-yet", AND(NOT(td["chosen"].at(b, i)), td["to_choose"].at(b) == K))
+    u.canary("something-chosen", td["chosen"].at(b, i))
+
+
+# ---------------------------------------------------------------------------------------------
+# MTVRP: demands, distance limit, variant sub-sampling defaults and the assembled instance
+# ---------------------------------------------------------------------------------------------
+def _mtvrp_gen(u, N, **kw):
+    dmin, dmax = u.scalar("min_demand", "i"), u.scalar("max_demand", "i")
+    bmin, bmax = u.scalar("min_backhaul", "i"), u.scalar("max_backhaul", "i")
+    ratio = u.scalar("backhaul_ratio", "f")
+    u.requires(AND(dmin >= 1, dmin <= dmax, bmin >= 1, bmin <= bmax))
+    gen = u.obj(MTG, "MTVRPGenerator", num_loc=N, min_demand=dmin, max_demand=dmax, min_backhaul=bmin, max_backhaul=bmax, backhaul_ratio=ratio, **kw)
+    return gen, (dmin, dmax, bmin, bmax)
+
+
+@unit("mtvrp.generator.demands", file=MTG, func="MTVRPGenerator.generate_demands", props=("C18",))
+def _(u):
+    B, N = u.dims("B N")
+    gen, (dmin, dmax, bmin, bmax) = _mtvrp_gen(u, N)
+    lh, bh = u.run(MTG, "MTVRPGenerator.generate_demands", [B], N, selfobj=gen, record=False)
+    b, i = u.idx((B,), "b"), u.idx((N,), "i")
+    u.prove("shapes", AND(shape_is(lh, (B, N)), shape_is(bh, (B, N)), lh.dtype == "f", bh.dtype == "f"))
+    l, h = lh.at(b, i), bh.at(b, i)
+    kl, kh = z3.ToInt(l), z3.ToInt(h)
+    # every customer is either a linehaul or a backhaul customer, never both, never neither; demands are whole numbers in range
+    u.prove("exactly-one-kind", OR(AND(l > 0, h == 0), AND(l == 0, h > 0)))
+    u.prove("linehaul-integer-in-range", IMPL(l > 0, AND(z3.ToReal(kl) == l, kl >= dmin, kl <= dmax)))
+    u.prove("backhaul-integer-in-range", IMPL(h > 0, AND(z3.ToReal(kh) == h, kh >= bmin, kh <= bmax)))
+    u.canary("all-linehaul", h == 0)
+    u.canary("all-backhaul", l == 0)
+
+
+@unit("mtvrp.generator.distance_limit", file=MTG, func="MTVRPGenerator.generate_distance_limit", props=("C18",))
+def _(u):
+    B, N = u.dims("B N")
+    L = u.scalar("distance_limit", "f")
+    locs = u.tensor("locs", (B, N + 1, 2), "f")
+    gen = u.obj(MTG, "MTVRPGenerator", distance_limit=L)
+    out = u.run(MTG, "MTVRPGenerator.generate_distance_limit", (B, 1), locs, selfobj=gen, record=False, asserts="record")
+    b, j = u.idx((B,), "b"), u.idx((N + 1,), "j")
+    u.asserted("Distance limit too low", b, j, 0)
+    d = ops.NORM2(locs.at(b, j, 0) - locs.at(b, 0, 0), locs.at(b, j, 1) - locs.at(b, 0, 1))
+    u.prove("limit", AND(shape_is(out, (B, 1)), out.at(b, 0) == L))
+    # an emitted instance (the generator's own assert passed) lets every node be served by an out-and-back route within the limit
+    u.prove("every-node-reachable-out-and-back", 2 * d < out.at(b, 0))
+    u.canary("limit-below-twice-the-distance", out.at(b, 0) <= 2 * d)
+
+
+@unit("mtvrp.generator.defaults", file=MTG, func="MTVRPGenerator.subsample_problems", props=("C18",))
+def _(u):
+    # the four feature-removal helpers of subsample_problems: a removed feature takes its neutral value on exactly the flagged
+    # instances (closed routes, windows [0, inf) and no service time, no distance limit, backhauls turned into linehauls), every
+    # other instance and every other field stays as generated
+    B, N = u.dims("B N")
+    keys = dict(open_route=((B, 1), "b"), time_windows=((B, N + 1, 2), "f"), service_time=((B, N + 1), "f"), distance_limit=((B, 1), "f"),
+                demand_linehaul=((B, N + 1), "f"), demand_backhaul=((B, N + 1), "f"))
+    b, j, c = u.idx((B,), "b"), u.idx((N + 1,), "j"), u.idx((2,), "c")
+    for fn, touched in (("_default_open", ("open_route",)), ("_default_time_window", ("time_windows", "service_time")),
+                        ("_default_distance_limit", ("distance_limit",)), ("_default_backhaul", ("demand_linehaul", "demand_backhaul"))):
+        ctx = cur()
+        ctx.prefix = fn + "."
+        td = u.td(B, **keys)
+        remove = u.tensor("remove", (B,), "b")
+        ctx.prefix = ""
+        pre = u.snapshot(td)
+        out = u.run(MTG, f"MTVRPGenerator.{fn}", td, remove, record=False)
+        r = remove.at(b)
+        p = fn + "."
+        if fn == "_default_open":
+            u.prove(p + "flag", out["open_route"].at(b, 0) == AND(pre["open_route"].at(b, 0), NOT(r)))
+        elif fn == "_default_time_window":
+            u.prove(p + "windows", out["time_windows"].at(b, j, c) == ite(r, ite(c == 0, zreal(0), ops.INF), pre["time_windows"].at(b, j, c)))
+            u.prove(p + "service", out["service_time"].at(b, j) == ite(r, zreal(0), pre["service_time"].at(b, j)))
+        elif fn == "_default_distance_limit":
+            u.prove(p + "limit", out["distance_limit"].at(b, 0) == ite(r, ops.INF, pre["distance_limit"].at(b, 0)))
+        else:
+            lin, bak = pre["demand_linehaul"].at(b, j), pre["demand_backhaul"].at(b, j)
+            u.prove(p + "linehaul", out["demand_linehaul"].at(b, j) == ite(r, lin + bak, lin))
+            u.prove(p + "backhaul", out["demand_backhaul"].at(b, j) == ite(r, zreal(0), bak))
+            u.prove(p + "total-demand-preserved", out["demand_linehaul"].at(b, j) + out["demand_backhaul"].at(b, j) == lin + bak)
+        for k in keys:
+            if k not in touched:
+                idx = (b, j, c)[:len(keys[k][0])] if k != "open_route" and k != "distance_limit" else (b, 0)
+                u.prove(p + f"untouched.{k}", out[k].at(*idx) == pre[k].at(*idx))
+    u.canary("backhaul-always-removed", out["demand_backhaul"].at(b, j) == 0)
+
+
+def _mtvrp_generate(u, scale_demand):
+    B, N = u.dims("B N")
+    lmin, lmax = u.scalar("min_loc", "f"), u.scalar("max_loc", "f")
+    cap, M, L, speed = u.scalar("capacity", "f"), u.scalar("max_time", "f"), u.scalar("distance_limit", "f"), u.scalar("speed", "f")
+    u.requires(AND(lmin <= lmax, cap > 0, M > 0, speed > 0))
+    gen, (dmin, dmax, bmin, bmax) = _mtvrp_gen(u, N, min_loc=lmin, max_loc=lmax, capacity=cap, max_time=M, distance_limit=L, speed=speed,
+                                               scale_demand=scale_demand, subsample=False)
+    # customers do not coincide with the depot (generate_time_windows divides by the depot distance; a measure-zero event, A10):
+    # stated on the first draw of the run, the locations
+    from tvc import methods
+    draw = z3.Function(f"uniform{methods._RAND[0] + 2}", z3.IntSort(), z3.IntSort(), z3.IntSort(), z3.RealSort())
+    u.requires(u.forall((B, N), lambda b, i: OR(draw(b, 0, 0) != draw(b, zint(i) + 1, 0), draw(b, 0, 1) != draw(b, zint(i) + 1, 1))))
+    u.inline(*[(MTG, "MTVRPGenerator." + f) for f in ("generate_locations", "generate_demands", "generate_open_route", "generate_speed",
+                                                      "generate_time_windows", "generate_distance_limit")])
+    td = u.run(MTG, "MTVRPGenerator._generate", [B], selfobj=gen, record=False, asserts="record")
+    b, i, j, c = u.idx((B,), "b"), u.idx((N,), "i"), u.idx((N + 1,), "j"), u.idx((2,), "c")
+    u.prove("keys", sorted(td.keys()) == sorted(["locs", "demand_backhaul", "demand_linehaul", "distance_limit", "time_windows", "service_time",
+                                                 "vehicle_capacity", "capacity_original", "open_route", "speed"]))
+    u.prove("shapes", AND(shape_is(td["locs"], (B, N + 1, 2)), shape_is(td["demand_linehaul"], (B, N + 1)), shape_is(td["demand_backhaul"], (B, N + 1)),
+                          shape_is(td["time_windows"], (B, N + 1, 2)), shape_is(td["service_time"], (B, N + 1)), tuple(td.batch_size) == (B,),
+                          *[shape_is(td[k], (B, 1)) for k in ("distance_limit", "vehicle_capacity", "capacity_original", "open_route", "speed")]))
+    u.prove("locs-in-range", AND(td["locs"].at(b, j, c) >= lmin, td["locs"].at(b, j, c) <= lmax))
+    u.prove("locs-are-the-first-draw", td["locs"].at(b, j, c) == draw(b, j, c))
+    u.prove("depot-has-no-demand", AND(td["demand_linehaul"].at(b, 0) == 0, td["demand_backhaul"].at(b, 0) == 0))
+    un = (lambda v: _unscale(v, cap)) if scale_demand else (lambda v: v)
+    l, h = un(td["demand_linehaul"].at(b, i + 1)), un(td["demand_backhaul"].at(b, i + 1))       # in demand units
+    if scale_demand:
+        u.prove("scaled.demands-are-fractions-of-capacity", AND(td["demand_linehaul"].at(b, i + 1) == l / cap, td["demand_backhaul"].at(b, i + 1) == h / cap))
+    kl, kh = z3.ToInt(l), z3.ToInt(h)
+    u.prove("customer.exactly-one-kind", OR(AND(l > 0, h == 0), AND(l == 0, h > 0)))
+    u.prove("customer.linehaul-integer-in-range", IMPL(l > 0, AND(z3.ToReal(kl) == l, kl >= dmin, kl <= dmax)))
+    u.prove("customer.backhaul-integer-in-range", IMPL(h > 0, AND(z3.ToReal(kh) == h, kh >= bmin, kh <= bmax)))
+    u.prove("capacity", AND(td["capacity_original"].at(b, 0) == cap, td["vehicle_capacity"].at(b, 0) == (zreal(1) if scale_demand else cap)))
+    # a single customer always fits into an empty vehicle whenever the largest possible demand does
+    u.prove("customer.fits-alone", IMPL(AND(z3.ToReal(dmax) <= cap, z3.ToReal(bmax) <= cap),
+                                        AND(td["demand_linehaul"].at(b, i + 1) <= td["vehicle_capacity"].at(b, 0), td["demand_backhaul"].at(b, i + 1) <= td["vehicle_capacity"].at(b, 0))))
+    u.prove("all-features-on", AND(td["open_route"].at(b, 0), td["speed"].at(b, 0) == speed, td["distance_limit"].at(b, 0) == L))
+    u.asserted("Distance limit too low", b, j, 0)
+    d = ops.NORM2(td["locs"].at(b, j, 0) - td["locs"].at(b, 0, 0), td["locs"].at(b, j, 1) - td["locs"].at(b, 0, 1))
+    u.prove("every-node-reachable-out-and-back", 2 * d < td["distance_limit"].at(b, 0))
+    u.prove("depot-window", AND(td["time_windows"].at(b, 0, 0) == 0, td["time_windows"].at(b, 0, 1) == M, td["service_time"].at(b, 0) == 0))
+    u.canary("customer.demand-below-capacity-unconditionally", td["demand_linehaul"].at(b, i + 1) <= td["vehicle_capacity"].at(b, 0))
+
+
+for _s in (True, False):
+    unit("mtvrp.generator.generate." + ("scaled" if _s else "unscaled"), file=MTG, func="MTVRPGenerator._generate", props=("C18",))(lambda u, _s=_s: _mtvrp_generate(u, _s))
+
+
+def _mtvrp_preset(u, preset):
+    """subsample_problems for a named single-variant preset: the features of the variant are kept on EVERY instance, all others
+    are neutralised on every instance (closed routes, windows [0, inf) / no service time, no limit, backhauls turned into linehauls)."""
+    B, N = u.dims("B N")
+    probs = {"cvrp": (0, 0, 0, 0), "ovrp": (1, 0, 0, 0), "vrpb": (0, 0, 0, 1), "vrpl": (0, 0, 1, 0), "vrptw": (0, 1, 0, 0), "ovrptw": (1, 1, 0, 0),
+             "ovrpb": (1, 0, 0, 1), "ovrpl": (1, 0, 1, 0), "vrpbl": (0, 0, 1, 1), "vrpbtw": (0, 1, 0, 1), "vrpltw": (0, 1, 1, 0), "ovrpbl": (1, 0, 1, 1),
+             "ovrpbtw": (1, 1, 0, 1), "ovrpltw": (1, 1, 1, 0), "vrpbltw": (0, 1, 1, 1), "ovrpbltw": (1, 1, 1, 1)}[preset]
+    vp = dict(zip(("O", "TW", "L", "B"), (float(x) for x in probs)))
+    gen = u.obj(MTG, "MTVRPGenerator", variant_probs=vp, variant_preset=preset, use_combinations=False)
+    td = u.td(B, open_route=((B, 1), "b"), time_windows=((B, N + 1, 2), "f"), service_time=((B, N + 1), "f"), distance_limit=((B, 1), "f"),
+              demand_linehaul=((B, N + 1), "f"), demand_backhaul=((B, N + 1), "f"))
+    pre = u.snapshot(td)
+    u.inline(*[(MTG, "MTVRPGenerator." + f) for f in ("_default_open", "_default_time_window", "_default_distance_limit", "_default_backhaul")])
+    out = u.run(MTG, "MTVRPGenerator.subsample_problems", td, selfobj=gen, record=False)
+    b, j, c = u.idx((B,), "b"), u.idx((N + 1,), "j"), u.idx((2,), "c")
+    O, TW, L, Bk = probs
+    u.prove("open", out["open_route"].at(b, 0) == (pre["open_route"].at(b, 0) if O else False))
+    u.prove("windows", AND(out["time_windows"].at(b, j, c) == (pre["time_windows"].at(b, j, c) if TW else ite(c == 0, zreal(0), ops.INF)),
+                           out["service_time"].at(b, j) == (pre["service_time"].at(b, j) if TW else zreal(0))))
+    u.prove("limit", out["distance_limit"].at(b, 0) == (pre["distance_limit"].at(b, 0) if L else ops.INF))
+    lin, bak = pre["demand_linehaul"].at(b, j), pre["demand_backhaul"].at(b, j)
+    u.prove("backhaul", AND(out["demand_backhaul"].at(b, j) == (bak if Bk else zreal(0)), out["demand_linehaul"].at(b, j) == (lin if Bk else lin + bak)))
+    u.canary("limit-always-kept", out["distance_limit"].at(b, 0) == pre["distance_limit"].at(b, 0)) if not L else u.canary("limit-always-removed", out["distance_limit"].at(b, 0) == ops.INF)
+
+
+for _p in ("ovrp", "vrpb", "vrpl", "vrptw", "ovrptw", "vrpbltw", "ovrpbltw"):
+    unit(f"mtvrp.generator.subsample.{_p}", file=MTG, func="MTVRPGenerator.subsample_problems", props=("C18",))(lambda u, _p=_p: _mtvrp_preset(u, _p))
